@@ -30,19 +30,34 @@ type solverSpec struct {
 	cmd  func(file string, timeoutS int, seed int) []string
 }
 
+// Limits.  The deciding limit of every solver run is a *resource* limit (z3 rlimit, cvc5 --rlimit):
+// a deterministic count of solver steps, so that the same query gets the same answer whatever the
+// load of the machine.  The figures are calibrated to roughly timeoutS seconds of CPU on an idle
+// core of the build machine; the wall-clock limit (four times that) is only a safety net.
+const (
+	z3NewUnitsPerSec = 1100000
+	z3OldUnitsPerSec = 4500000
+	cvc5UnitsPerSec  = 100000
+	wallFactor       = 4
+)
+
 var solvers = []solverSpec{
 	{"z3-5.1.0", func(f string, t int, seed int) []string {
-		return []string{"z3-new", fmt.Sprintf("-T:%d", t), fmt.Sprintf("smt.random_seed=%d", seed), f}
+		return []string{"z3-new", fmt.Sprintf("-T:%d", wallFactor*t), fmt.Sprintf("rlimit=%d", t*z3NewUnitsPerSec), fmt.Sprintf("smt.random_seed=%d", seed), f}
 	}},
 	{"z3-4.8.12", func(f string, t int, seed int) []string {
-		return []string{"z3", fmt.Sprintf("-T:%d", t), fmt.Sprintf("smt.random_seed=%d", seed), f}
+		return []string{"z3", fmt.Sprintf("-T:%d", wallFactor*t), fmt.Sprintf("rlimit=%d", t*z3OldUnitsPerSec), fmt.Sprintf("smt.random_seed=%d", seed), f}
 	}},
 	{"cvc5-1.0", func(f string, t int, seed int) []string {
-		return []string{"cvc5", fmt.Sprintf("--tlimit=%d", t*1000), fmt.Sprintf("--seed=%d", seed), f}
+		return []string{"cvc5", fmt.Sprintf("--tlimit=%d", wallFactor*t*1000), fmt.Sprintf("--rlimit=%d", t*cvc5UnitsPerSec), fmt.Sprintf("--seed=%d", seed), f}
 	}},
 }
 
 func (e *Exec) queryText(o *Obligation, withModel bool) string {
+	return e.queryTextGoal(o, o.Goal.S, withModel)
+}
+
+func (e *Exec) queryTextGoal(o *Obligation, goal string, withModel bool) string {
 	var b strings.Builder
 	b.WriteString(e.smt.header())
 	for _, d := range e.smt.recDefs {
@@ -65,7 +80,7 @@ func (e *Exec) queryText(o *Obligation, withModel bool) string {
 		b.WriteByte('\n')
 	}
 	fmt.Fprintf(&b, "; obligation %s (%s) at %s\n", o.Name, o.Kind, o.Where)
-	fmt.Fprintf(&b, "(assert (not (=> %s %s)))\n", o.PC.S, o.Goal.S)
+	fmt.Fprintf(&b, "(assert (not (=> %s %s)))\n", o.PC.S, goal)
 	b.WriteString("(check-sat)\n")
 	if withModel {
 		b.WriteString("(get-model)\n")
@@ -76,7 +91,7 @@ func (e *Exec) queryText(o *Obligation, withModel bool) string {
 func runSolver(ctx context.Context, sp solverSpec, file string, timeoutS, seed int) (string, string, float64) {
 	args := sp.cmd(file, timeoutS, seed)
 	start := time.Now()
-	cctx, cancel := context.WithTimeout(ctx, time.Duration(timeoutS+2)*time.Second)
+	cctx, cancel := context.WithTimeout(ctx, time.Duration(wallFactor*timeoutS+5)*time.Second)
 	defer cancel()
 	cmd := exec.CommandContext(cctx, args[0], args[1:]...)
 	var out bytes.Buffer
@@ -118,10 +133,70 @@ func firstN(s string, n int) string {
 }
 
 // solveOne races the solvers on one obligation.
+// solveOne decides one obligation.  A goal that is syntactically a conjunction is decided conjunct by
+// conjunct (each an equivalent part of the goal: all must be discharged): solvers are markedly more
+// stable on the parts than on the whole.
 func solveOne(e *Exec, o *Obligation, dir string, timeoutS int, seed int, all bool) *SolveResult {
-	text := e.queryText(o, false)
+	if o.Expect == "sat" || noSplit {
+		return solvePiece(e, o, o.Goal.S, "", dir, timeoutS, seed, all)
+	}
+	pieces := e.splitGoal(o.Goal.S, 0)
+	if len(pieces) <= 1 || len(pieces) > 24 {
+		return solvePiece(e, o, o.Goal.S, "", dir, timeoutS, seed, all)
+	}
+	var agg *SolveResult
+	for i, pc := range pieces {
+		r := solvePiece(e, o, pc, fmt.Sprintf(".part%d", i+1), dir, timeoutS, seed, all)
+		if agg == nil {
+			agg = r
+			continue
+		}
+		agg.Time += r.Time
+		for k, v := range r.Answers {
+			if prev, ok := agg.Answers[k]; !ok || prev == "unsat" {
+				agg.Answers[k] = v
+			}
+		}
+		if r.Status != "discharged" && agg.Status == "discharged" {
+			agg.Status, agg.Solver, agg.Model, agg.File = r.Status, r.Solver, r.Model, r.File
+		}
+		if agg.Status != "discharged" {
+			break
+		}
+	}
+	return agg
+}
+
+var noSplit = os.Getenv("GOVC_NOSPLIT") != ""
+
+// solvePiece races the solvers on one query; an inconclusive race is repeated once with other solver
+// seeds (a time-out is often a matter of the seed; a second opinion costs time only where the first
+// attempt failed).
+func solvePiece(e *Exec, o *Obligation, goal string, suffix string, dir string, timeoutS int, seed int, all bool) *SolveResult {
+	r := solvePieceOnce(e, o, goal, suffix, dir, timeoutS, seed, all)
+	if r.Status == "undecided" && o.Expect != "sat" && !all {
+		hasErr := false
+		for _, a := range r.Answers {
+			if strings.HasPrefix(a, "error") {
+				hasErr = true
+			}
+		}
+		if !hasErr {
+			r2 := solvePieceOnce(e, o, goal, suffix, dir, timeoutS, seed+7919, all)
+			r2.Time += r.Time
+			if r2.Status != "undecided" {
+				r2.Solver += " (second seed)"
+			}
+			return r2
+		}
+	}
+	return r
+}
+
+func solvePieceOnce(e *Exec, o *Obligation, goal string, suffix string, dir string, timeoutS int, seed int, all bool) *SolveResult {
+	text := e.queryTextGoal(o, goal, false)
 	h := sha256.Sum256([]byte(text))
-	fn := filepath.Join(dir, smtIdent(o.Name)+".smt2")
+	fn := filepath.Join(dir, smtIdent(o.Name)+suffix+".smt2")
 	_ = os.WriteFile(fn, []byte(text), 0o644)
 	res := &SolveResult{Obl: o, Answers: map[string]string{}, File: fn, Hash: fmt.Sprintf("%x", h[:8])}
 	ctx, cancel := context.WithCancel(context.Background())
@@ -183,7 +258,7 @@ func solveOne(e *Exec, o *Obligation, dir string, timeoutS int, seed int, all bo
 	}
 	if res.Status == "refuted" {
 		// get a model from the solver that said sat
-		mtext := e.queryText(o, true)
+		mtext := e.queryTextGoal(o, goal, true)
 		mf := fn + ".model.smt2"
 		_ = os.WriteFile(mf, []byte(mtext), 0o644)
 		for _, sp := range solvers {
@@ -275,9 +350,10 @@ func (e *Exec) quickValid(st *State, cond Term, ms int) bool {
 	defer os.Remove(f.Name())
 	f.WriteString(text)
 	f.Close()
-	ctx, cancel := context.WithTimeout(context.Background(), time.Duration(ms+500)*time.Millisecond)
+	// (resource limit rather than time: the encoding chosen must not depend on the load of the machine)
+	ctx, cancel := context.WithTimeout(context.Background(), time.Duration(10*ms+2000)*time.Millisecond)
 	defer cancel()
-	out, _ := exec.CommandContext(ctx, "z3-new", fmt.Sprintf("-t:%d", ms), f.Name()).Output()
+	out, _ := exec.CommandContext(ctx, "z3-new", fmt.Sprintf("rlimit=%d", ms*z3NewUnitsPerSec/1000), f.Name()).Output()
 	for _, l := range strings.Split(string(out), "\n") {
 		l = strings.TrimSpace(l)
 		if l == "" || strings.HasPrefix(l, "WARNING") {
@@ -286,4 +362,127 @@ func (e *Exec) quickValid(st *State, cond Term, ms int) bool {
 		return l == "unsat"
 	}
 	return false
+}
+
+// ---------------------------------------------------------------------------------------------
+// goal splitting
+
+// sexprParts splits "(head a1 ... an)" into its head and top-level arguments.
+func sexprParts(s string) (string, []string, bool) {
+	s = strings.TrimSpace(s)
+	if len(s) < 2 || s[0] != '(' || s[len(s)-1] != ')' {
+		return "", nil, false
+	}
+	in := s[1 : len(s)-1]
+	var parts []string
+	depth, start := 0, -1
+	for i := 0; i < len(in); i++ {
+		c := in[i]
+		switch {
+		case c == '"':
+			if start < 0 {
+				start = i
+			}
+			for i++; i < len(in) && in[i] != '"'; i++ {
+			}
+		case c == '|':
+			if start < 0 {
+				start = i
+			}
+			for i++; i < len(in) && in[i] != '|'; i++ {
+			}
+		case c == '(':
+			if depth == 0 && start < 0 {
+				start = i
+			}
+			depth++
+		case c == ')':
+			depth--
+			if depth < 0 {
+				return "", nil, false
+			}
+			if depth == 0 {
+				parts = append(parts, in[start:i+1])
+				start = -1
+			}
+		case c == ' ' || c == '\n' || c == '\t':
+			if depth == 0 && start >= 0 {
+				parts = append(parts, in[start:i])
+				start = -1
+			}
+		default:
+			if start < 0 {
+				start = i
+			}
+		}
+	}
+	if depth != 0 {
+		return "", nil, false
+	}
+	if start >= 0 {
+		parts = append(parts, in[start:])
+	}
+	if len(parts) == 0 {
+		return "", nil, false
+	}
+	return parts[0], parts[1:], true
+}
+
+// splitGoal returns formulas whose conjunction is equivalent to g.
+func (e *Exec) splitGoal(g string, depth int) []string {
+	g = strings.TrimSpace(g)
+	if depth > 40 {
+		return []string{g}
+	}
+	if !strings.HasPrefix(g, "(") {
+		if body, ok := e.smt.alias[g]; ok && g != "true" && g != "false" {
+			if ps := e.splitGoal(body, depth+1); len(ps) > 1 {
+				return ps
+			}
+		}
+		return []string{g}
+	}
+	head, args, ok := sexprParts(g)
+	if !ok {
+		return []string{g}
+	}
+	switch {
+	case head == "and" && len(args) > 0:
+		var out []string
+		for _, a := range args {
+			out = append(out, e.splitGoal(a, depth+1)...)
+		}
+		return out
+	case head == "ite" && len(args) == 3:
+		c, a, b := args[0], strings.TrimSpace(args[1]), strings.TrimSpace(args[2])
+		switch {
+		case a == "false": // not c and b
+			return append(e.splitGoal("(not "+c+")", depth+1), e.splitGoal(b, depth+1)...)
+		case b == "false": // c and a
+			return append(e.splitGoal(c, depth+1), e.splitGoal(a, depth+1)...)
+		case a == "true": // c or b
+			var out []string
+			for _, p := range e.splitGoal(b, depth+1) {
+				out = append(out, "(or "+c+" "+p+")")
+			}
+			return out
+		case b == "true": // c implies a
+			var out []string
+			for _, p := range e.splitGoal(a, depth+1) {
+				out = append(out, "(=> "+c+" "+p+")")
+			}
+			return out
+		}
+	case head == "=>" && len(args) == 2:
+		var out []string
+		for _, p := range e.splitGoal(args[1], depth+1) {
+			out = append(out, "(=> "+args[0]+" "+p+")")
+		}
+		return out
+	case head == "not" && len(args) == 1:
+		if h2, a2, ok2 := sexprParts(args[0]); ok2 && h2 == "not" && len(a2) == 1 {
+			return e.splitGoal(a2[0], depth+1)
+		}
+	}
+	return []string{g}
 }
